@@ -74,6 +74,36 @@ func c16MakeNode(k int64) *c16Node {
 	return &c16Node{id: ident.id, inner: inner, ident: ident}
 }
 
+// c16DeadlineCtx is a context whose deadline passes when the harness says so
+// (a deadline context on a harness-owned clock): Done closes and Err reports
+// context.DeadlineExceeded, exactly like a context.WithDeadline that expired.
+type c16DeadlineCtx struct {
+	mu   sync.Mutex
+	done chan struct{}
+	err  error
+	at   time.Time
+}
+
+func c16NewDeadlineCtx() *c16DeadlineCtx {
+	return &c16DeadlineCtx{done: make(chan struct{}), at: time.Now().Add(time.Hour)}
+}
+func (c *c16DeadlineCtx) Deadline() (time.Time, bool) { return c.at, true }
+func (c *c16DeadlineCtx) Done() <-chan struct{}       { return c.done }
+func (c *c16DeadlineCtx) Value(any) any               { return nil }
+func (c *c16DeadlineCtx) Err() error {
+	c.mu.Lock()
+	defer c.mu.Unlock()
+	return c.err
+}
+func (c *c16DeadlineCtx) expire() {
+	c.mu.Lock()
+	if c.err == nil {
+		c.err = context.DeadlineExceeded
+		close(c.done)
+	}
+	c.mu.Unlock()
+}
+
 // c16Key is the model's identity of a message.
 type c16Key struct {
 	sender string
@@ -103,6 +133,15 @@ type c16Receiver struct {
 	seen      map[c16Key]int
 	sentinels uint64 // highest sentinel number handled
 	bad       []string
+	// how the receiver's context ends: "cancel" (context.WithCancel),
+	// "deadline" (harness-clock deadline context), "timeout" (a real
+	// context.WithTimeout the harness lets run out)
+	kind   string
+	ctx    context.Context
+	end    func()
+	inbox  chan net.Message // the channel's queue for this receiver
+	gate   chan struct{}    // non-nil: the handler blocks after recording a message
+	inGate bool
 }
 
 // started records that a delivery of k begins now.
@@ -253,6 +292,7 @@ func TestVerif_C16_Libp2pChannel(t *testing.T) {
 		sendIDs := uint64(0)
 		sentinelNo := uint64(0)
 		harnessDups, cancels, concurrentSends, sends := 0, 0, 0, 0
+		busySeq, busyEnds := 0, 0
 		defer func() {
 			for _, c := range msgCancels {
 				c()
@@ -316,9 +356,22 @@ func TestVerif_C16_Libp2pChannel(t *testing.T) {
 				}
 			}
 		}
-		addReceiver := func() {
-			ctx, cancel := context.WithCancel(context.Background())
-			r := &c16Receiver{id: len(w.receivers), cancel: cancel, seen: map[c16Key]int{}, must: map[c16Key]bool{}, started: map[c16Key]bool{}}
+		addReceiver := func(kind string) *c16Receiver {
+			r := &c16Receiver{id: len(w.receivers), kind: kind, seen: map[c16Key]int{}, must: map[c16Key]bool{}, started: map[c16Key]bool{}}
+			var ctx context.Context
+			switch kind {
+			case "deadline":
+				dc := c16NewDeadlineCtx()
+				ctx, r.cancel, r.end = dc, dc.expire, dc.expire
+			case "timeout":
+				// a real timer; the harness waits for it to run out
+				c, cancel := context.WithTimeout(context.Background(), 5*time.Millisecond)
+				ctx, r.cancel, r.end = c, cancel, func() { <-c.Done() }
+			default:
+				c, cancel := context.WithCancel(context.Background())
+				ctx, r.cancel, r.end = c, cancel, cancel
+			}
+			r.ctx = ctx
 			// known to the bookkeeping before the channel knows it: "started"
 			// may then contain deliveries the receiver never gets (harmless)
 			w.mu.Lock()
@@ -331,15 +384,15 @@ func TestVerif_C16_Libp2pChannel(t *testing.T) {
 			w.mu.Unlock()
 			ch.Recv(ctx, func(m net.Message) {
 				w.mu.Lock()
-				defer w.mu.Unlock()
 				k := c16Key{m.TransportSenderID().String(), m.Seqno()}
 				if m.Type() == c16Sentinel {
 					if r.cancelled {
-						r.bad = append(r.bad, fmt.Sprintf("handled sentinel %d after its context was cancelled", m.Seqno()))
+						r.bad = append(r.bad, fmt.Sprintf("handled sentinel %d after its context had ended", m.Seqno()))
 					}
 					if m.Seqno() > r.sentinels {
 						r.sentinels = m.Seqno()
 					}
+					w.mu.Unlock()
 					return
 				}
 				r.seen[k]++
@@ -349,19 +402,43 @@ func TestVerif_C16_Libp2pChannel(t *testing.T) {
 				case !r.started[k]:
 					r.bad = append(r.bad, fmt.Sprintf("handled message (%s, %d), no delivery of which started during the receiver's lifetime", k.sender, k.seqno))
 				case r.cancelled && !r.boundary[k]:
-					r.bad = append(r.bad, fmt.Sprintf("handled message (%s, %d) after its context was cancelled: cancel had returned and no delivery of that message was under way", k.sender, k.seqno))
+					r.bad = append(r.bad, fmt.Sprintf("handled message (%s, %d) after its context had ended (%s): the end had been observed and no delivery of that message could still be under way", k.sender, k.seqno, r.kind))
+				}
+				gate := r.gate
+				if gate != nil {
+					r.inGate = true
+				}
+				w.mu.Unlock()
+				if gate != nil {
+					<-gate // the harness keeps this receiver busy inside its handler
 				}
 			})
-			hist = append(hist, fmt.Sprintf("recv%d", r.id))
+			ch.messageHandlersMutex.Lock()
+			r.inbox = ch.messageHandlers[len(ch.messageHandlers)-1].channel
+			ch.messageHandlersMutex.Unlock()
+			hist = append(hist, fmt.Sprintf("recv%d:%s", r.id, kind))
+			return r
 		}
 
+		// a message of peers[1] nobody has seen yet, delivered by the harness
+		freshDelivery := func(seq uint64) {
+			key := c16Key{peers[1].id.String(), seq}
+			sendIDs++
+			envelopes[key], authors[key] = c16Envelope(peers[1].inner, c16Type, sendIDs, seq), peers[1].id
+			known = append(known, key)
+			w.startDelivery(key)
+			if err := process(peers[1].id, envelopes[key]); err != nil {
+				fail("envelope rejected: %v", err)
+			}
+			completed(key)
+		}
 		for i, n := 0, rapid.IntRange(1, 3).Draw(t, "initialReceivers"); i < n; i++ {
-			addReceiver()
+			addReceiver(rapid.SampledFrom([]string{"cancel", "deadline"}).Draw(t, "endsBy"))
 		}
 		nOps := rapid.IntRange(2, 14).Draw(t, "ops")
 		opening := rapid.IntRange(0, 2).Draw(t, "opening") > 0 // most histories open with send, tick
 		for op := 0; op < nOps; op++ {
-			opName := rapid.SampledFrom([]string{"redeliver", "cancel", "tick", "send", "recv", "inject", "tick", "redeliver", "send", "cancel", "inject", "recv", "tick", "redeliver", "cancelmsg"}).Draw(t, "op")
+			opName := rapid.SampledFrom([]string{"redeliver", "cancel", "tick", "send", "recv", "endbusy", "inject", "tick", "redeliver", "send", "cancel", "inject", "recv", "endbusy", "tick", "redeliver", "cancelmsg"}).Draw(t, "op")
 			if opening && op == 0 {
 				opName = "send"
 			}
@@ -371,7 +448,7 @@ func TestVerif_C16_Libp2pChannel(t *testing.T) {
 			switch opName {
 			case "recv":
 				if len(w.receivers) < 4 {
-					addReceiver()
+					addReceiver(rapid.SampledFrom([]string{"cancel", "deadline"}).Draw(t, "endsBy"))
 				}
 			case "send":
 				// k concurrent senders on the channel
@@ -506,7 +583,8 @@ func TestVerif_C16_Libp2pChannel(t *testing.T) {
 				// with (the step before ended with the sentinel), cancel returns,
 				// then the mark is set. Only retransmissions already under way
 				// (started, not handled yet) may still arrive.
-				r.cancel()
+				r.end() // cancel() or the deadline passes, as the receiver's kind says
+				<-r.ctx.Done()
 				w.mu.Lock()
 				r.cancelled = true
 				r.boundary = map[c16Key]bool{}
@@ -517,7 +595,7 @@ func TestVerif_C16_Libp2pChannel(t *testing.T) {
 				}
 				w.mu.Unlock()
 				cancels++
-				hist = append(hist, fmt.Sprintf("cancel%d", r.id))
+				hist = append(hist, fmt.Sprintf("end%d:%s", r.id, r.kind))
 				// deliveries that start after the cancel returned: a message
 				// nobody has seen yet and, if there is one, a known message
 				fresh := c16Key{peers[1].id.String(), uint64(1000 + cancels)}
@@ -531,6 +609,80 @@ func TestVerif_C16_Libp2pChannel(t *testing.T) {
 					}
 					completed(key)
 				}
+			case "endbusy":
+				// The receiver is kept busy inside its handler while messages
+				// queue up behind it and its context ends (cancel, deadline on
+				// the harness clock, or a real timeout running out). The handler
+				// goroutine is provably not between "took a message" and "calls
+				// the handler", so afterwards NOTHING may be handled any more:
+				// every queued message is looked at after the context ended.
+				var r *c16Receiver
+				if rapid.IntRange(0, 2).Draw(t, "realTimeout") == 0 && len(w.receivers) < 6 {
+					r = addReceiver("timeout")
+				} else {
+					var live []*c16Receiver
+					for _, c := range w.receivers {
+						if !c.cancelled {
+							live = append(live, c)
+						}
+					}
+					if len(live) == 0 {
+						break
+					}
+					r = rapid.SampledFrom(live).Draw(t, "busyWho")
+				}
+				gate := make(chan struct{})
+				w.mu.Lock()
+				r.gate = gate
+				w.mu.Unlock()
+				busySeq++
+				freshDelivery(uint64(2000 + busySeq))
+				parkedOrDone := verifkit.Eventually(c16Wait, func() bool {
+					w.mu.Lock()
+					defer w.mu.Unlock()
+					return r.inGate || r.ctx.Err() != nil
+				})
+				if !parkedOrDone {
+					close(gate)
+					fail("VERIF-INCONCLUSIVE: receiver %d did not pick up a message within %v", r.id, c16Wait)
+				}
+				w.mu.Lock()
+				strict := r.inGate
+				w.mu.Unlock()
+				queued := rapid.IntRange(3, 8).Draw(t, "queued")
+				for i := 0; i < queued; i++ {
+					busySeq++
+					freshDelivery(uint64(2000 + busySeq))
+				}
+				r.end()
+				<-r.ctx.Done()
+				w.mu.Lock()
+				r.cancelled = true
+				r.boundary = map[c16Key]bool{}
+				if !strict {
+					// (a real timeout may run out before the first message was
+					// picked up: then only the usual boundary rule applies)
+					for k := range r.started {
+						if r.seen[k] == 0 {
+							r.boundary[k] = true
+						}
+					}
+				}
+				r.gate = nil
+				w.mu.Unlock()
+				close(gate)
+				cancels++
+				if strict {
+					busyEnds++
+				}
+				// give a faulty receive loop the moment it needs to hand the
+				// queued messages over (sensitivity only, no verdict depends on it)
+				verifkit.Eventually(3*time.Millisecond, func() bool {
+					w.mu.Lock()
+					defer w.mu.Unlock()
+					return len(r.bad) > 0 || len(r.inbox) == 0
+				})
+				hist = append(hist, fmt.Sprintf("endbusy%d:%s(%d queued,strict=%v)", r.id, r.kind, queued, strict))
 			case "cancelmsg":
 				// end the context of the oldest live message: its retransmissions stop
 				if liveMsgs > 0 {
@@ -563,7 +715,7 @@ func TestVerif_C16_Libp2pChannel(t *testing.T) {
 		dups := harnessDups + retransmissions
 		st.Case(dups > 0 && cancels > 0, strings.Join(hist, " "),
 			fmt.Sprintf("harness-duplicates:%v", harnessDups > 0), fmt.Sprintf("retransmissions-seen:%v", retransmissions > 0),
-			fmt.Sprintf("cancellations:%v", cancels > 0),
+			fmt.Sprintf("cancellations:%v", cancels > 0), fmt.Sprintf("ended-while-busy:%v", busyEnds > 0),
 			fmt.Sprintf("concurrent-sends:%v", concurrentSends > 0), fmt.Sprintf("receivers:%d", len(w.receivers)),
 			fmt.Sprintf("sends>=3:%v", sends >= 3))
 	})
